@@ -1,5 +1,4 @@
-(* C08, cross-radix normalisation, offset >= 0: establishing the entry invariant of each outer
-   iteration (generic and first iteration), and the value statement that follows from the final invariant. *)
+(* C08, cross-radix normalisation, offset >= 0: arithmetic helpers for the entry invariant of the outer iterations. *)
 From PV Require Import Base.MachineInt Model.Znx Model.Limbs Model.C08Oracle
   Proofs.ZnxDigit Proofs.C08Steps Proofs.C08Chain Proofs.C08Loops Proofs.C08Value Proofs.C08Normalize
   Proofs.C08Shift Proofs.C08CrossInner Proofs.C08CrossGeom Proofs.C08CrossOuter.
@@ -31,251 +30,6 @@ Qed.
 Lemma small_g (k ab x lsh : Z) : 0 <= k -> 1 <= ab -> 0 <= x -> (k + 1) * ab + x <= lsh -> lsh < ab -> False.
 Proof. intros; nia. Qed.
 
-Section Loop.
-Variables rb ab : Z.
-Hypothesis Hrb : 1 <= rb <= 62.
-Hypothesis Hab : 1 <= ab <= 62.
-Variable a : list Z.
-Hypothesis Ha : hrl a.
-Variable lsh : Z.
-Hypothesis Hl : 0 <= lsh < ab.
-Variable rsz : nat.
-Variables z g : Z.
-Hypothesis Hz : 0 <= z.
-Hypothesis Hg : 0 <= g.
-Hypothesis Hzg : z = 0 \/ g = 0.
-
-Let Hab1 : 1 <= ab. Proof. lia. Qed.
-Let Hab64 : 1 <= ab <= 64 - 2. Proof. lia. Qed.
-
-Notation OuterI := (Outer rb ab a lsh rsz z g).
-Notation EntryI := (Entry rb ab a lsh rsz z g).
-Notation FinalI := (Final rb ab a lsh rsz z g).
-Notation LvalI := (Lval ab a lsh).
-
-(* the a-digit normalisation step on limb t of the stream *)
-Lemma digit_step (t : nat) (c : Z) : (t < length a)%nat -> Z.abs c <= 2 ^ 62 ->
-  let X := vin a lsh t + c in
-  middle_step 64 true ab lsh 0 (nthZ a (length a - 1 - t)) c = (wrap ab X, bdiv ab X) /\
-  Z.abs X <= 2 ^ 62 * 2 ^ (ab - 1) + 2 ^ 62 /\ Z.abs (wrap ab X) <= 2 ^ ab /\ Z.abs (bdiv ab X) <= 2 ^ 62 /\
-  X = wrap ab X + 2 ^ ab * bdiv ab X.
-Proof.
-  intros Ht Hc. cbv zeta.
-  rewrite (vin_at a lsh t (length a - 1 - t) Ht eq_refl).
-  set (x := nthZ a (length a - 1 - t)).
-  assert (Hx : Z.abs x <= 2 ^ 62) by apply Ha.
-  rewrite (middle_step_ideal 64 ab lsh Hab64 Hl true 0 x c Hx Hc ltac:(discriminate)).
-  rewrite Z.add_0_l.
-  assert (Hs : Z.abs (x * 2 ^ lsh) <= 2 ^ 62 * 2 ^ (ab - 1)) by (apply shifted_bound; auto; cbn; lia).
-  split; [reflexivity|]. split; [lia|]. split.
-  - pose proof (wrap_range ab (x * 2 ^ lsh + c) Hab1) as [W1 W2].
-    pose proof (pow2_pos (ab - 1) ltac:(lia)). pose proof (pow2_split ab Hab1). lia.
-  - split; [apply bdiv_chain; auto; cbn; lia|]. symmetry. apply wrap_bdiv; auto.
-Qed.
-
-(* generic iteration: from the outer invariant to the entry invariant of the inner loop *)
-Lemma next_entry (t : nat) (s : cstate) : OuterI t s -> (t < length a)%nat ->
-  let m := middle_step 64 true ab lsh 0 (nthZ a (length a - 1 - t)) (c_acarry s) in
-  EntryI t {| c_res := c_res s; c_anorm := fst m; c_acarry := snd m; c_rcarry := c_rcarry s;
-              c_atake := ab; c_racc := c_racc s; c_rlimb := c_rlimb s |}.
-Proof.
-  intros (Sh & Hr & Hrc & Hc & HF & drop & Hdrop & EV) Ht. cbv zeta.
-  destruct (digit_step t (c_acarry s) Ht Hc) as (E & HX & Hw & Hb & Hdec). cbv zeta in E, HX, Hw, Hb, Hdec.
-  rewrite E. cbn [fst snd]. set (X := vin a lsh t + c_acarry s) in *.
-  unfold Entry. cbn [c_res c_anorm c_acarry c_rcarry c_atake c_racc c_rlimb].
-  assert (EFp : forall an ac, Fpos rb rsz {| c_res := c_res s; c_anorm := an; c_acarry := ac; c_rcarry := c_rcarry s;
-                                    c_atake := ab; c_racc := c_racc s; c_rlimb := c_rlimb s |} = Fpos rb rsz s)
-    by reflexivity.
-  rewrite EFp.
-  split; [exact Sh|]. split; [exact Hr|]. split; [lia|]. split; [exact Hw|]. split; [exact Hb|].
-  split; [exact Hrc|]. split; [clear - HF; lia|].
-  exists drop, X, 0. split; [exact Hdrop|]. split; [|split; [exact HX|split]].
-  - rewrite Lval_S, Z.mul_add_distr_l, EV.
-    assert (HF0 : 0 <= Fpos rb rsz s) by (apply Fpos_nonneg; [lia|apply Sh|lia]).
-    assert (E1 : 2 ^ (g + Fpos rb rsz s) = 2 ^ (z + zn t * ab)) by (f_equal; clear - HF; lia).
-    assert (E2 : 2 ^ (z + (zn t + 1) * ab) = 2 ^ (z + zn t * ab) * 2 ^ ab).
-    { rewrite <- pow2_add by (try apply Z.add_nonneg_nonneg; try apply Z.mul_nonneg_nonneg; unfold zn; lia).
-      f_equal. ring. }
-    assert (E3 : 2 ^ z * (vin a lsh t * 2 ^ (zn t * ab)) = 2 ^ (z + zn t * ab) * vin a lsh t).
-    { rewrite pow2_add by (try apply Z.mul_nonneg_nonneg; unfold zn; lia). ring. }
-    rewrite E1, E2, E3.
-    replace (vin a lsh t) with (wrap ab X + 2 ^ ab * bdiv ab X - c_acarry s) by (unfold X in Hdec |- *; lia).
-    ring.
-  - rewrite Z.sub_diag. change (2 ^ 0) with 1. lia.
-  - cbn [Z.abs]. rewrite Z.sub_diag. cbn. lia.
-Qed.
-
-(* first iteration, boundary digit straddling the bottom of res: its low `take` bits are rounded away *)
-Lemma first_take (a_out : nat) (take ac0 Dlow : Z) : (1 <= rsz)%nat ->
-  z = 0 -> g = zn a_out * ab + take -> 1 <= take < ab -> (a_out < length a)%nat ->
-  LvalI a_out = Dlow + 2 ^ (zn a_out * ab) * ac0 -> Z.abs Dlow <= 2 ^ (zn a_out * ab) - 1 ->
-  Z.abs ac0 <= 2 ^ 62 -> (a_out = 0%nat -> ac0 = 0 /\ Dlow = 0) ->
-  let m := middle_step 64 true ab lsh 0 (nthZ a (length a - 1 - a_out)) ac0 in
-  EntryI a_out {| c_res := zeros rsz; c_anorm := mul_power_of_two 64 (- take) (fst m); c_acarry := snd m;
-                  c_rcarry := 0; c_atake := ab - take; c_racc := rb; c_rlimb := (rsz - 1)%nat |}.
-Proof.
-  intros Hrsz Ez Eg Htake Ht EL HD Hc0 H0. cbv zeta.
-  destruct (digit_step a_out ac0 Ht Hc0) as (E & HX & Hw & Hb & Hdec). cbv zeta in E, HX, Hw, Hb, Hdec.
-  rewrite E. cbn [fst snd]. set (X := vin a lsh a_out + ac0) in *.
-  set (an := wrap ab X) in *. set (ac := bdiv ab X) in *.
-  assert (Han62 : Z.abs an <= 2 ^ 62).
-  { assert (2 ^ ab <= 2 ^ 62) by (apply pow2_le_mono; lia). lia. }
-  destruct (mp2_round take an ltac:(lia) Han62) as (rho & Ern & Hrho & Hexact).
-  set (rnd := mul_power_of_two 64 (- take) an) in *.
-  pose proof (wrap_range ab X Hab1) as [W1 W2]. fold an in W1, W2.
-  assert (Eab : 2 ^ ab = 2 ^ take * 2 ^ (ab - take)) by (rewrite <- pow2_add by lia; f_equal; lia).
-  pose proof (pow2_pos take ltac:(lia)) as Hpt. pose proof (pow2_pos (ab - take) ltac:(lia)) as Hpr.
-  pose proof (pow2_split ab Hab1) as Hsab. pose proof (pow2_pos (ab - 1) ltac:(lia)) as Hpab.
-  assert (Hrnd : Z.abs rnd <= 2 ^ (ab - take)).
-  { apply (rnd_bound take ab an rho rnd); [lia|split; assumption|exact Ern|exact Hrho]. }
-  set (s2 := {| c_res := zeros rsz; c_anorm := rnd; c_acarry := ac; c_rcarry := 0; c_atake := ab - take;
-                c_racc := rb; c_rlimb := (rsz - 1)%nat |}).
-  assert (EF : Fpos rb rsz s2 = 0).
-  { unfold Fpos, s2. cbn [c_rlimb c_racc]. unfold zn. rewrite Nat2Z.inj_sub by lia. cbn. ring. }
-  unfold Entry. rewrite EF.
-  change (c_res s2) with (zeros rsz). change (c_anorm s2) with rnd. change (c_acarry s2) with ac.
-  change (c_rcarry s2) with 0. change (c_atake s2) with (ab - take). change (c_racc s2) with rb.
-  split.
-  { unfold shape, s2. cbn [c_res c_rlimb c_racc]. split; [apply zeros_length|]. split; [lia|].
-    split; [intros; apply nth_zeros|]. rewrite nth_zeros, Z.sub_diag. cbn. lia. }
-  split; [lia|]. split; [lia|]. split; [exact Hrnd|]. split; [exact Hb|]. split; [reflexivity|].
-  split; [rewrite Ez, Eg; ring|].
-  assert (Hpa : 0 < 2 ^ (zn a_out * ab)) by (apply pow2_pos; apply Z.mul_nonneg_nonneg; unfold zn; lia).
-  exists (Dlow + 2 ^ (zn a_out * ab) * rho), X, rho.
-  split; [|split; [|split; [exact HX|split]]].
-  - unfold dropok. split.
-    + rewrite Eg, pow2_add by (try apply Z.mul_nonneg_nonneg; unfold zn; lia).
-      assert (take_ge : 2 <= 2 ^ take).
-      { pose proof (pow2_split take ltac:(lia)). pose proof (pow2_pos (take - 1) ltac:(lia)). lia. }
-      apply drop_bound; [exact Hpa|exact take_ge|exact HD|exact Hrho].
-    + intros Hgl.
-      assert (Ea0 : a_out = 0%nat).
-      { destruct a_out as [|k]; [reflexivity|]. exfalso.
-        apply (small_g (Z.of_nat k) ab take lsh); [lia|lia|lia| |lia].
-        unfold zn in Eg. rewrite Nat2Z.inj_succ in Eg. clear - Eg Hgl. lia. }
-      destruct (H0 Ea0) as [Hac0 HD0]. rewrite HD0.
-      assert (rho = 0); [|subst rho; ring].
-      apply Hexact.
-      (* an is a multiple of 2^take: X is (lsh >= take), and 2^ab is *)
-      assert (Etk : take = g) by (rewrite Eg, Ea0; change (zn 0) with 0; ring).
-      assert (EX : X = nthZ a (length a - 1 - a_out) * 2 ^ lsh).
-      { unfold X. rewrite Hac0, Z.add_0_r. apply vin_at; [exact Ht|reflexivity]. }
-      assert (El : 2 ^ lsh = 2 ^ take * 2 ^ (lsh - take)) by (rewrite <- pow2_add by lia; f_equal; lia).
-      set (x := nthZ a (length a - 1 - a_out)) in *.
-      assert (Hmul : an = (x * 2 ^ (lsh - take) - 2 ^ (ab - take) * ac) * 2 ^ take).
-      { rewrite Z.mul_sub_distr_r.
-        replace (2 ^ (ab - take) * ac * 2 ^ take) with (2 ^ ab * ac) by (rewrite Eab; ring).
-        replace (x * 2 ^ (lsh - take) * 2 ^ take) with (x * 2 ^ lsh) by (rewrite El; ring).
-        rewrite <- EX. clear - Hdec. lia. }
-      rewrite Hmul. apply Z_mod_mult.
-  - rewrite Ez, Z.pow_0_r, !Z.mul_1_l, Z.add_0_l, Z.add_0_r. rewrite Vres_zeros, Z.mul_0_r, Z.add_0_r.
-    rewrite Lval_S, EL.
-    assert (E1 : 2 ^ g = 2 ^ (zn a_out * ab) * 2 ^ take) by (rewrite Eg; apply pow2_add; [apply Z.mul_nonneg_nonneg; unfold zn; lia|lia]).
-    assert (E2 : 2 ^ ((zn a_out + 1) * ab) = 2 ^ (zn a_out * ab) * 2 ^ ab).
-    { rewrite <- pow2_add by (try apply Z.mul_nonneg_nonneg; unfold zn; lia). f_equal. ring. }
-    rewrite E1, E2.
-    replace (vin a lsh a_out) with (an + 2 ^ ab * ac - ac0) by (unfold X in Hdec; lia).
-    rewrite Ern at 1. ring.
-  - replace (ab - (ab - take)) with take by ring. rewrite Hdec at 1. rewrite Ern at 1. ring.
-  - replace (ab - (ab - take)) with take by ring. exact Hrho.
-Qed.
-
-(* first iteration without a straddling digit: the outer invariant holds for the (adjusted) initial state *)
-Lemma first_outer (a_out res_start : nat) (m racc0 ac0 Dlow an0 at0 : Z) :
-  (1 <= res_start <= rsz)%nat -> 0 <= m < rb -> racc0 = rb - m ->
-  (zn rsz - zn res_start) * rb + m = z -> g = zn a_out * ab ->
-  LvalI a_out = Dlow + 2 ^ (zn a_out * ab) * ac0 -> Z.abs Dlow <= 2 ^ (zn a_out * ab) - 1 ->
-  Z.abs ac0 <= 2 ^ 62 -> (a_out = 0%nat -> Dlow = 0) ->
-  OuterI a_out {| c_res := zeros rsz; c_anorm := an0; c_acarry := ac0; c_rcarry := 0; c_atake := at0;
-                  c_racc := racc0; c_rlimb := (res_start - 1)%nat |}.
-Proof.
-  intros Hrs Hm Er Ez Eg EL HD Hc0 H0.
-  unfold Outer. cbn [c_res c_anorm c_acarry c_rcarry c_atake c_racc c_rlimb].
-  assert (EF : Fpos rb rsz {| c_res := zeros rsz; c_anorm := an0; c_acarry := ac0; c_rcarry := 0; c_atake := at0;
-                              c_racc := racc0; c_rlimb := (res_start - 1)%nat |} = z).
-  { unfold Fpos. cbn [c_rlimb c_racc]. rewrite Er, <- Ez. unfold zn. rewrite Nat2Z.inj_sub by lia. cbn. ring. }
-  rewrite EF. split.
-  { unfold shape. cbn [c_res c_rlimb c_racc]. split; [apply zeros_length|]. split; [lia|].
-    split; [intros; apply nth_zeros|]. rewrite nth_zeros, Er. replace (rb - (rb - m)) with m by ring.
-    pose proof (pow2_pos m ltac:(lia)). cbn [Z.abs]. lia. }
-  split; [lia|]. split; [reflexivity|]. split; [exact Hc0|]. split; [rewrite Eg; ring|].
-  assert (Hpa : 0 < 2 ^ (zn a_out * ab)) by (apply pow2_pos; apply Z.mul_nonneg_nonneg; unfold zn; lia).
-  exists Dlow. split.
-  - unfold dropok. split; [rewrite Eg; lia|]. intros Hgl. apply H0.
-    destruct a_out as [|k]; [reflexivity|]. exfalso.
-    apply (small_g (Z.of_nat k) ab 0 lsh); [lia|lia|lia| |lia].
-    unfold zn in Eg. rewrite Nat2Z.inj_succ in Eg. clear - Eg Hgl. lia.
-  - rewrite Vres_zeros, Z.mul_0_r, Z.add_0_r, EL.
-    rewrite pow2_add by (try apply Z.mul_nonneg_nonneg; unfold zn; lia). ring.
-Qed.
-
-(* all processed digits consumed without a break: the final invariant holds as well *)
-Lemma outer_final (lo : Z) (t : nat) (s : cstate) : 0 <= lo ->
-  (zn (length a) - lo) * ab = zn rsz * rb + g - z -> zn t = zn (length a) - lo ->
-  OuterI t s -> FinalI (c_res s).
-Proof.
-  intros Hlo Hgeo Et (Sh & Hr & Hrc & Hc & HF & drop & Hdrop & EV).
-  unfold Final. split; [apply Sh|].
-  destruct (ival_split ab Hab1 (vin a lsh) (length a) (fun u Hu => vin_zero a lsh u Hu) t) as [Y HY].
-  fold (LvalI (length a)) in HY. fold (LvalI t) in HY.
-  exists drop, (c_acarry s + Y). split; [exact Hdrop|].
-  rewrite HY, Z.mul_add_distr_l, EV.
-  assert (E1 : z + zn t * ab = g + zn rsz * rb) by (rewrite Et; lia).
-  rewrite E1.
-  assert (E2 : 2 ^ z * (2 ^ (zn t * ab) * Y) = 2 ^ (g + zn rsz * rb) * Y).
-  { rewrite <- E1, pow2_add by (try apply Z.mul_nonneg_nonneg; unfold zn; lia). ring. }
-  rewrite E2. ring.
-Qed.
-
-(* the torus statement from the final invariant *)
-Lemma final_value (lo P : Z) (res : list Z) : 0 <= lo ->
-  (zn (length a) - lo) * ab = zn rsz * rb + g - z -> 0 < zn (length a) - lo ->
-  FinalI res ->
-  zn rsz * rb + zn (length a) * ab + (lo * ab + lsh) <= P ->
-  let D := tor_abs P (val_scaled P rb res - val_scaled (P + (lo * ab + lsh)) ab a) in
-  D <= 2 ^ (P - zn rsz * rb) /\ (zn (length a) * ab - (lo * ab + lsh) <= zn rsz * rb -> D = 0).
-Proof.
-  intros Hlo Hgeo HT (Lr & drop & K & [Hd1 Hd2] & EV) HP. cbv zeta.
-  set (A := zn (length a)) in *. set (R := zn rsz) in *.
-  assert (HA : 0 <= A) by (unfold A, zn; lia). assert (HR : 0 <= R) by (unfold R, zn; lia).
-  assert (HRrb : 0 <= R * rb) by (apply Z.mul_nonneg_nonneg; lia).
-  assert (HAab : 0 <= A * ab) by (apply Z.mul_nonneg_nonneg; lia).
-  assert (Hloab : 0 <= lo * ab) by (apply Z.mul_nonneg_nonneg; lia).
-  assert (HTab : 0 <= (A - lo) * ab) by (apply Z.mul_nonneg_nonneg; lia).
-  assert (Hgle : g <= (A - lo) * ab) by (destruct Hzg; lia).
-  set (E1 := P - R * rb - g).
-  assert (HE1 : 0 <= E1) by (unfold E1; lia).
-  assert (HP0 : 0 <= P) by lia.
-  rewrite (val_scaled_Vres P rb rsz res ltac:(lia) Lr ltac:(fold R; lia)). fold R.
-  rewrite (val_scaled_vin ab P lo lsh a Hab1 ltac:(lia) ltac:(fold A; lia)). fold A.
-  fold (LvalI (length a)).
-  assert (EA : P - (A - lo) * ab = E1 + z) by (unfold E1; lia).
-  rewrite EA.
-  assert (X1 : 2 ^ (E1 + z) * LvalI (length a)
-               = 2 ^ (E1 + z) * drop + 2 ^ (E1 + g) * Vres rb rsz res + 2 ^ (E1 + (g + R * rb)) * K).
-  { rewrite (pow2_add E1 z), (pow2_add E1 g), (pow2_add E1 (g + R * rb)) by lia.
-    replace (2 ^ E1 * 2 ^ z * LvalI (length a)) with (2 ^ E1 * (2 ^ z * LvalI (length a))) by ring.
-    rewrite EV. ring. }
-  replace (E1 + g) with (P - R * rb) in X1 by (unfold E1; ring).
-  replace (E1 + (g + R * rb)) with P in X1 by (unfold E1; ring).
-  rewrite X1.
-  replace (2 ^ (P - R * rb) * Vres rb rsz res
-           - (2 ^ (E1 + z) * drop + 2 ^ (P - R * rb) * Vres rb rsz res + 2 ^ P * K))
-    with (- (2 ^ (E1 + z) * drop) + 2 ^ P * (- K)) by ring.
-  rewrite tor_abs_add_mul by auto.
-  assert (Hex : g <= lsh -> tor_abs P (- (2 ^ (E1 + z) * drop)) = 0).
-  { intros Hgl. rewrite (Hd2 Hgl), Z.mul_0_r. apply tor_abs_0; auto. }
-  split.
-  - destruct Hzg as [Ez|Eg].
-    + pose proof (tor_abs_le P (- (2 ^ (E1 + z) * drop)) HP0) as Hle.
-      rewrite Z.abs_opp, Z.abs_mul in Hle.
-      pose proof (pow2_pos (E1 + z) ltac:(lia)) as Hp. rewrite (Z.abs_eq (2 ^ (E1 + z))) in Hle by lia.
-      replace (P - R * rb) with ((E1 + z) + g) by (unfold E1; lia).
-      rewrite (pow2_add (E1 + z) g) by lia.
-      assert (2 ^ (E1 + z) * Z.abs drop <= 2 ^ (E1 + z) * 2 ^ g) by (apply Z.mul_le_mono_nonneg_l; lia).
-      lia.
-    + rewrite Hex by lia. pose proof (pow2_pos (P - R * rb) ltac:(lia)). lia.
-  - intros Hx. apply Hex. destruct Hzg; lia.
-Qed.
-
-End Loop.
+(* The lemmas on the outer iterations (digit_step, next_entry, first_take, first_outer, outer_final, final_value) are
+   proved for every word width in Proofs/C08WCrossLoop.v (same names with the suffix W); nothing else used the
+   width-64 copies, which were removed to keep this file fast to compile. *)
